@@ -27,8 +27,6 @@ EXTENDS Word, FiniteSets, TLC, Json
 CONSTANTS
   Real,                            \* FALSE: scaled exhaustive model checking; TRUE: real widths
   CharSigned,                      \* plain char signed (x86_64-sysv) or unsigned (aarch64, riscv64)
-  Families,                        \* set of case families to enumerate (see Gen below)
-  Level,                           \* 1 quick / 2 thorough value sets (real mode)
   Dev_LogicalReturnsOperand,       \* eval(): `||`/`&&` fold to one of the operands instead of 0/1
   Dev_BoolCastTruncates,           \* cast(): no _Bool case; conversion to _Bool folded as truncation to 8 bits
   Dev_FloatToUnsignedRejectsNeg,   \* eval(): float -> unsigned rejects every negative value, also those in (-1,0)
@@ -79,7 +77,9 @@ ZTDiv(a, b) == IF Real THEN SDiv(a, b) ELSE TruncDiv(a, b)      \* truncating to
 ZTRem(a, b) == IF Real THEN SMod(a, b) ELSE TruncRem(a, b)
 ZShl(a, k)  == IF Real THEN Shl(a, k) ELSE a * 2 ^ k
 ZShrF(a, k) == IF Real THEN Sar(a, k) ELSE a \div (2 ^ k)        \* floor(a / 2^k)
-ZPow2(k)    == ZShl(ZK(1), k)
+Z0          == ZK(0)
+Z1          == ZK(1)
+ZPow2(k)    == ZShl(Z1, k)
 RECURSIVE IBitLen(_)
 IBitLen(x)  == IF x = 0 THEN 0 ELSE 1 + IBitLen(x \div 2)
 RECURSIVE ITz(_)
@@ -100,8 +100,8 @@ ZBitOp(op, a, b, bits, sg) ==      \* a, b in range of the type; two's complemen
 
 (* ---- exact dyadic rationals m * 2^e (m odd or zero); x = FALSE marks "not exactly representable" ---- *)
 D(m, e)   == [x |-> TRUE, m |-> m, e |-> e]
-DZero     == D(ZK(0), 0)
-Inexact   == [x |-> FALSE, m |-> ZK(0), e |-> 0]
+DZero     == D(Z0, 0)
+Inexact   == [x |-> FALSE, m |-> Z0, e |-> 0]
 DNorm(m, e) == IF ZIsZero(m) THEN DZero ELSE LET tz == ZTz(m) IN D(ZShrF(m, tz), e + tz)
 DOfZ(z)   == DNorm(z, 0)
 DIsZero(d) == ZIsZero(d.m)
@@ -142,17 +142,22 @@ DRepr(d, t) ==
 (* ====================================================================== *)
 (* Declarative side: C11 typing and evaluation                              *)
 (* ====================================================================== *)
-MinZ(t) == IF IsSigned(t) THEN ZNeg(ZPow2(Width(t) - 1)) ELSE ZK(0)
-MaxZ(t) == IF IsSigned(t) THEN ZSub(ZPow2(Width(t) - 1), ZK(1)) ELSE ZSub(ZPow2(Width(t)), ZK(1))
+(* (zero-arity definitions of constant level are evaluated once by TLC: the per-type tables below are caches) *)
+MinTab == [t \in IntTypes |-> IF IsSigned(t) THEN ZNeg(ZPow2(Width(t) - 1)) ELSE Z0]
+MaxTab == [t \in IntTypes |-> IF IsSigned(t) THEN ZSub(ZPow2(Width(t) - 1), Z1) ELSE ZSub(ZPow2(Width(t)), Z1)]
+MinZ(t) == MinTab[t]
+MaxZ(t) == MaxTab[t]
 InRange(z, t) == ZLe(MinZ(t), z) /\ ZLe(z, MaxZ(t))
 CanRepresentAll(t1, t2) == InRange(MinZ(t2), t1) /\ InRange(MaxZ(t2), t1)
 (* 6.3.1.1p2 integer promotions *)
-Promote(t) ==
+PromoteDef(t) ==
   IF IsFloat(t) THEN t
   ELSE IF Rank[t] <= Rank["int"] THEN (IF CanRepresentAll("int", t) THEN "int" ELSE "uint")
   ELSE t
+PromoteTab == [t \in ArithTypes |-> PromoteDef(t)]
+Promote(t) == PromoteTab[t]
 (* 6.3.1.8 usual arithmetic conversions *)
-UAC(t1, t2) ==
+UACDef(t1, t2) ==
   IF "double" \in {t1, t2} THEN "double" ELSE IF "float" \in {t1, t2} THEN "float"
   ELSE LET a == Promote(t1)
            b == Promote(t2)
@@ -164,10 +169,13 @@ UAC(t1, t2) ==
                   ELSE IF CanRepresentAll(s, u) THEN s
                   ELSE UnsignedOf[s]
 
+UACTab == [t1 \in ArithTypes |-> [t2 \in ArithTypes |-> UACDef(t1, t2)]]
+UAC(t1, t2) == UACTab[t1][t2]
+
 Val(st, t, v) == [st |-> st, t |-> t, v |-> v]
 OkV(t, v) == Val("ok", t, v)
 NoV(st, t) == Val(st, t, 0)        \* st in {"ub", "inexact"}: no value is prescribed
-B01(b) == IF b THEN ZK(1) ELSE ZK(0)
+B01(b) == IF b THEN Z1 ELSE Z0
 
 (* 6.3.1.2-6.3.1.5 conversion of a value x of type f to type t *)
 Conv(x, f, t) ==
@@ -298,26 +306,28 @@ CMin        == IF Real THEN [i \in 1..8 |-> IF i = 8 THEN 128 ELSE 0] ELSE 2 ^ (
 CToZU(u)    == IF Real THEN ZExt(u, ZB) ELSE u         \* value of the carrier read as unsigned long long
 CToZS(u)    == IF Real THEN SExt(u, ZB) ELSE IToS(CB, u)   \* ... read as long long
 COfZ(z)     == IF Real THEN Trunc(z, 8) ELSE z % (2 ^ CB)
-C01(b)      == IF b THEN CK(1) ELSE CK(0)
+C0          == CK(0)
+C1          == CK(1)
+C01(b)      == IF b THEN C1 ELSE C0
 
 (* cast(): `u &= -1ull >> 64 - size*8; if (signed) { m = 1ull << size*8 - 1; u = (u ^ m) - m; }` *)
+CastMaskTab == [t \in IntTypes |-> CShr(COnes, CB - CastBits(t))]
+CastSignTab == [t \in IntTypes |-> CShl(CK(1), CastBits(t) - 1)]
 CastInt(u, t) ==
-  LET bits == CastBits(t)
-      mk == CShr(COnes, CB - bits)
-      x == CAnd(u, mk)
-      m == CShl(CK(1), bits - 1)
+  LET x == CAnd(u, CastMaskTab[t])
+      m == CastSignTab[t]
   IN IF IsSigned(t) THEN CSub(CXor(x, m), m) ELSE x
 
 (* constants of the folded tree: integer carrier u (f unused) or exact floating value f (u unused) *)
 KI(t, u) == [k |-> "c", t |-> t, u |-> u, f |-> DZero]
-KF(t, f) == [k |-> "c", t |-> t, u |-> CK(0), f |-> f]
+KF(t, f) == [k |-> "c", t |-> t, u |-> C0, f |-> f]
 IsK(n) == n.k = "c"
 
 (* result of a fold step: st = "ok" (n is the resulting node), "trap" (the compiler dies with a signal), *)
 (* "error" (diagnosed, exit 1), "unspec" (outside the model: inexact floating result or host-undefined *)
 (* conversion); dv = names of the deviations that changed the outcome                                  *)
 R(st, n, dv) == [st |-> st, n |-> n, dv |-> dv]
-Bad(st, dv) == [st |-> st, n |-> KI("int", CK(0)), dv |-> dv]
+Bad(st, dv) == [st |-> st, n |-> KI("int", C0), dv |-> dv]
 
 (* binary(): the operation is selected by the type of the LEFT operand, the result is cast to type t *)
 FoldBinary(op, t, l, r) ==
@@ -446,13 +456,15 @@ Fold(n) ==
 (* Implementation-shaped side, part 2: tree construction of expr.c          *)
 (* ====================================================================== *)
 (* type.c typepromote(t, width = -1) *)
-ImplPromote(t) ==
+ImplPromoteDef(t) ==
   IF t = "float" THEN "double"      \* (only used for variadic arguments; never reached from the operators below)
   ELSE IF IsInt(t) /\ Rank[t] <= Rank["int"]
        THEN (IF CastBits(t) - (IF IsSigned(t) THEN 1 ELSE 0) < CastBits("int") THEN "int" ELSE "uint")
   ELSE t
+ImplPromoteTab == [t \in ArithTypes |-> ImplPromoteDef(t)]
+ImplPromote(t) == ImplPromoteTab[t]
 (* type.c typecommonreal *)
-ImplCommon(t1, t2) ==
+ImplCommonDef(t1, t2) ==
   IF "double" \in {t1, t2} THEN "double" ELSE IF "float" \in {t1, t2} THEN "float"
   ELSE LET a == ImplPromote(t1)
            b == ImplPromote(t2)
@@ -463,6 +475,8 @@ ImplCommon(t1, t2) ==
                IN IF Rank[u] >= Rank[s] THEN u
                   ELSE IF CastBits(u) < CastBits(s) THEN s
                   ELSE UnsignedOf[s]
+ImplCommonTab == [t1 \in ArithTypes |-> [t2 \in ArithTypes |-> ImplCommonDef(t1, t2)]]
+ImplCommon(t1, t2) == ImplCommonTab[t1][t2]
 (* exprconvert(): a cast node unless the types are compatible *)
 Cv(n, t) == IF n.t = t THEN n ELSE [k |-> "cast", t |-> t, a |-> n]
 NBin(op, t, l, r) == [k |-> "bin", op |-> op, t |-> t, l |-> l, r |-> r]
@@ -525,6 +539,13 @@ FoldModel(e) ==
 FoldAssigned(e, t) ==
   LET b == Build(e) IN
   IF b.st # "ok" THEN b ELSE LET f == Fold(Cv(b.n, t)) IN [f EXCEPT !.dv = @ \cup b.dv]
+
+(* constructors of the surface syntax ConstEval / FoldModel work on *)
+Lit(t, v)      == [k |-> "lit", t |-> t, v |-> v]
+ECast(t, a)    == [k |-> "cast", t |-> t, a |-> a]
+EUn(op, a)     == [k |-> "un", op |-> op, a |-> a]
+EBin(op, l, r) == [k |-> "bin", op |-> op, l |-> l, r |-> r]
+ECond(c, a, b) == [k |-> "cond", c |-> c, a |-> a, b |-> b]
 
 (* ====================================================================== *)
 (* Refinement: FoldModel (deviations off) => ConstEval                      *)
